@@ -9,7 +9,7 @@ MONITORS = ('M2', 'M6')
 ANCHORS = ['phylib.io.array:SpikeSelector.__init__', 'phylib.io.array:_times_in_chunks',
            'phylib.io.array:SpikeSelector.__call__', 'phylib.io.array:_flatten_per_cluster']
 RULE = ('Each case: random spike times (many exactly on chunk bounds) and cluster labels, a chunk grid of '
-        '2..9 bounds (also not starting at 0), n_chunks_kept in 1..m+1, requested count in {None,0,1,3,100}, '
+        '2..9 bounds (also not starting at 0; integer or fractional float bounds with int32/int64/uint64/float32/float64 times), n_chunks_kept in 1..m+1, requested count in {None,0,1,3,100}, '
         'a requested cluster list incl. empty / unknown ids, subset_chunks on/off, subset_spikes on/off; '
         'the real SpikeSelector is called under 5 np.random seeds and every output is judged by a '
         'constraint checker whose eligibility is computed by loops from the definition b_i <= t < '
@@ -40,12 +40,16 @@ def gen(seed):
     start = int(rng.choice([0, 0, 0, 3, 10]))
     widths = rng.integers(1, 12, size=m)
     bounds = np.r_[start, start + np.cumsum(widths)].astype(np.int64)
+    if rng.random() < 0.3:
+        bounds = bounds.astype(np.float64) + np.r_[0, np.sort(rng.choice([0.25, 0.5, 0.75, 0.3], size=m))] * 0.9   # fractional grid (seconds)
     n = int(rng.integers(1, 60)) if rng.random() < 0.98 else int(rng.integers(1500, 4000))   # occasionally thousands of spikes
     on_bound = rng.choice(bounds, size=n)
     anywhere = rng.integers(bounds[0], bounds[-1], size=n)
     t = np.where(rng.random(n) < 0.4, on_bound, anywhere)
     # the last bound itself is outside every chunk; keep a few such spikes too
-    t = np.sort(t).astype([np.int64, np.uint64, np.float64][int(rng.integers(0, 3))])
+    t = np.sort(t)
+    t = t.astype([np.int64, np.uint64, np.float64, np.float32, np.int32][int(rng.integers(0, 5))]) if bounds.dtype.kind == 'f' \
+        else t.astype([np.int64, np.uint64, np.float64][int(rng.integers(0, 3))])
     k = int(rng.integers(1, 5))
     ids = np.array([1, 4, 5, 9])[:k]
     clusters = rng.choice(ids, size=n).astype(np.int64)
@@ -67,7 +71,11 @@ def run_case(case, ctx):
     desc = {'bounds': bounds.tolist(), 'times': t.tolist(), 'tdtype': t.dtype.name, 'clusters': clusters.tolist(),
             'n_chunks_kept': kept, 'count': count, 'requested': req, 'subset_chunks': subset_chunks,
             'subset_spikes': None if subset_spikes is None else subset_spikes.tolist(), 'seed': case['seed']}
-    r = call(SpikeSelector, get_spikes_per_cluster=lambda c: _spikes_in_clusters(clusters, [c]),
+    # the caller keeps ONE index array per cluster (as TemplateModel does); it must never be altered
+    spc = {int(c): _spikes_in_clusters(clusters, [c]) for c in np.unique(clusters)}
+    spc0 = {c: v.copy() for c, v in spc.items()}
+    empty = np.array([], dtype=np.int64)
+    r = call(SpikeSelector, get_spikes_per_cluster=lambda c: spc.get(int(c), empty),
              spike_times=t, chunk_bounds=bounds, n_chunks_kept=kept)
     if not r.ok:
         ctx.count(1)
@@ -99,7 +107,10 @@ def run_case(case, ctx):
     stride_div = (m % max(1, -(-m // kept)) != 0)
     on_b = bool(np.isin(t, bounds).any())
     # ---- eligibility by definition ---------------------------------------------------------
+    tl = [x.item() for x in t]        # exact Python numbers (a float32 scalar compared with a Python float would be compared in float32)
+
     def in_kept(x):
+        x = x.item() if hasattr(x, 'item') else x
         return any(a <= x < b for (a, b) in pairs)
     elig = {}
     for c in req:
@@ -163,4 +174,6 @@ def run_case(case, ctx):
             msg = 'second query: output %r not increasing / outside the requested clusters' % out[:20]
         if msg:
             ctx.violation('bad_selection', desc, msg, dict(feats, second_query=True))
+    if any(not np.array_equal(spc[c], spc0[c]) for c in spc):
+        ctx.violation('inputs_modified', desc, 'the selector altered the per-cluster spike arrays of the caller', feats)
     ctx.sample({k: desc[k] for k in ('bounds', 'times', 'n_chunks_kept', 'count', 'requested', 'subset_chunks')}, every=701)
